@@ -265,11 +265,13 @@ def plain_run(spec, scratch):
     m_cu.pkg_resources = env.VersionStub()
     so = sys.stdout
     sys.stdout = env._NULL
+    env.reset_library_state()          # (a fresh process: nothing a simulated run created lazily may linger)
     try:
         workloads.converter_fn(spec, out)()
     finally:
         sys.stdout = so
         m_cu.pkg_resources = saved
+        env.reset_library_state()
     with open(out, 'rb') as f:
         data = f.read()
     os.remove(out)
@@ -291,6 +293,10 @@ def build_pool(seed, n, scratch, gate=True):
             # treats large blocks differently is not met by the small cubes)
             spec = {'id': idx, 'route': 'numpy', 'data_seed': 77, 'shape': [8, 400, 1024], 'bits': 16,
                     'blockshape': [4, 4, -1]}
+        if idx == len(forced) + 1:
+            # dead traces at the end of the survey and no footer: the file ends with blocks of all-zero bytes
+            spec = {'id': idx, 'route': 'segy', 'data_seed': 78, 'shape': [11, 6, 40], 'bits': 4, 'blockshape': [4, 4, -1],
+                    'fmt': 1, 'il0': 1, 'xl0': 1, 'il_step': 1, 'xl_step': 1, 'detection': 'strip', 'dead': 'tail'}
         idx += 1
         try:
             workloads.materialise(spec, scratch)
